@@ -248,8 +248,15 @@ class Polyhedron(Shape3D):
         for i, face in enumerate(self.faces):
             new_faces[labels[i]].update(face)
 
+        old_state = (self._faces, self._equations, self._neighbors)
         self._faces = [np.asarray(list(f)) for f in new_faces]
-        self.sort_faces()
+        try:
+            self.sort_faces()
+        except Exception:
+            # The merged faces cannot be ordered (e.g. coplanar convex faces
+            # whose union is not convex): leave the polyhedron as it was.
+            self._faces, self._equations, self._neighbors = old_state
+            raise
         # The memoised edge list describes the unmerged mesh.
         self.__dict__.pop("edges", None)
 
